@@ -11,6 +11,11 @@
    Set+unlock.  The scan of the done bits in loadRange happens under the RLock and is one step.
 
    Index rows, the store oracle, sort.Search and the null chunk are shared with Model/ReadSeeker.v.
+   NewSparseFile is one atomic step ([restart]): a kill between its Truncate and the WriteState that ends the
+   path which did not load the saved state is not modelled (see props/C10.json level_note).  A state save file is
+   always configured.  Between runs the cache file may be deleted or truncated/extended once ([cache_mode]), the
+   state file may be unreadable ([m_state]); replacing the CONTENT of either file by an external party is not a
+   label of this system.
    Abstractions: the bitmap is a list of n booleans (the up-to-7 padding bits of the byte slice are
    always 0 in a state written by writeState); file-system errors of OpenFile/WriteAt/Truncate are not
    modelled; a WriteAt of one chunk is atomic. *)
@@ -35,8 +40,8 @@ Definition index_range (idx : index) (start length : Z) : option (Z * Z) :=
   | None => None
   | Some f =>
       let first := Z.of_nat f in
-      if length <? 1 then Some (first, first)
-      else if (n <=? f)%nat then Some (Z.of_nat n - 1, Z.of_nat n - 1)
+      if (n <=? f)%nat then Some (Z.of_nat n - 1, Z.of_nat n - 1)      (* reading past the end, load the last chunk *)
+      else if length <? 1 then Some (first, first)
       else Some (first, scan_last (skipn (S f) idx) end_u first)
   end.
 
@@ -103,7 +108,6 @@ Record sstate := mkstate {
   s_threads : list thread;
   s_log : list (request * result);  (* completed requests, newest first *)
   s_crashed : bool;                 (* a goroutine panicked: the process is gone until restarted *)
-  s_stale : bool;                   (* ghost: the state file was saved for a cache file that has since been lost *)
   s_fetched : list (nat * nat);     (* ghost: (call number, chunk) of every successful GetChunk whose data was written *)
 }.
 
@@ -121,12 +125,12 @@ Section Loader.
     | [] => s
     | rq :: q =>
         mkstate (s_done s) (s_file s) (s_calls s) (s_mutex s) (s_saved s)
-                (upd_thread s k (mkthread q None)) ((rq, r) :: s_log s) (s_crashed s) (s_stale s) (s_fetched s)
+                (upd_thread s k (mkthread q None)) ((rq, r) :: s_log s) (s_crashed s) (s_fetched s)
     end.
 
   Definition set_pc (s : sstate) (k : nat) (th : thread) (p : phase) : sstate :=
     mkstate (s_done s) (s_file s) (s_calls s) (s_mutex s) (s_saved s)
-            (upd_thread s k (mkthread (queue th) (Some p))) (s_log s) (s_crashed s) (s_stale s) (s_fetched s).
+            (upd_thread s k (mkthread (queue th) (Some p))) (s_log s) (s_crashed s) (s_fetched s).
 
   (* one atomic step of goroutine k *)
   Definition tstep (s : sstate) (k : nat) : option sstate :=
@@ -137,16 +141,18 @@ Section Loader.
       | _, [] => None
       | None, RqSave :: _ =>                                     (* WriteState: l.mu.Lock(); write done *)
           let s' := mkstate (s_done s) (s_file s) (s_calls s) (s_mutex s) (Some (s_done s))
-                            (s_threads s) (s_log s) (s_crashed s) false (s_fetched s) in
+                            (s_threads s) (s_log s) (s_crashed s) (s_fetched s) in
           Some (finish s' k th RDone)
       | None, RqLoad i :: _ => Some (set_pc s k th (PNeed [i]))  (* preload worker received chunkIdx *)
       | None, RqRead off len :: _ =>                             (* ReadAt -> loadRange: indexRange + scan under RLock *)
+          if (n =? 0)%nat then Some (set_pc s k th (PNeed []))   (* empty blob, nothing to load *)
+          else
           match index_range idx off (Z.of_nat len) with
           | None => None
           | Some (first, last) =>
               match needed idx nullid (s_done s) first last with
               | None => Some (mkstate (s_done s) (s_file s) (s_calls s) (s_mutex s) (s_saved s) (s_threads s)
-                                      (s_log s) true (s_stale s) (s_fetched s))      (* panic *)
+                                      (s_log s) true (s_fetched s))      (* panic *)
               | Some todo => Some (set_pc s k th (PNeed todo))
               end
           end
@@ -160,11 +166,11 @@ Section Loader.
           else if nth i (s_done s) false then Some (set_pc s k th (PNeed todo))      (* done: unlock, return nil *)
           else
             let s' := mkstate (s_done s) (s_file s) (s_calls s) (set_nth (s_mutex s) i true) (s_saved s)
-                              (s_threads s) (s_log s) (s_crashed s) (s_stale s) (s_fetched s) in
+                              (s_threads s) (s_log s) (s_crashed s) (s_fetched s) in
             Some (set_pc s' k th (PFetch i todo))
       | Some (PFetch i todo), rq :: _ =>                         (* l.s.GetChunk + c.Data() *)
           let s' := mkstate (s_done s) (s_file s) (S (s_calls s)) (set_nth (s_mutex s) i false) (s_saved s)
-                            (s_threads s) (s_log s) (s_crashed s) (s_stale s) (s_fetched s) in
+                            (s_threads s) (s_log s) (s_crashed s) (s_fetched s) in
           let fail e := Some (finish s' k th (match rq with RqRead _ _ => RErr e | _ => RDone end)) in
           match store (s_calls s) (r_id (nth i idx row0)) with
           | SFail c => fail (XStore c)
@@ -172,17 +178,17 @@ Section Loader.
               if (List.length d =? 0)%nat then fail XNoData
               else
                 let s'' := mkstate (s_done s) (s_file s) (S (s_calls s)) (s_mutex s) (s_saved s)
-                                   (s_threads s) (s_log s) (s_crashed s) (s_stale s)
+                                   (s_threads s) (s_log s) (s_crashed s)
                                    ((s_calls s, i) :: s_fetched s) in
                 Some (set_pc s'' k th (PWrite i d todo))
           end
       | Some (PWrite i d todo), _ =>                             (* f.WriteAt(b, Start) *)
           let s' := mkstate (s_done s) (write_at (s_file s) (N.to_nat (r_start (nth i idx row0))) d) (s_calls s)
-                            (s_mutex s) (s_saved s) (s_threads s) (s_log s) (s_crashed s) (s_stale s) (s_fetched s) in
+                            (s_mutex s) (s_saved s) (s_threads s) (s_log s) (s_crashed s) (s_fetched s) in
           Some (set_pc s' k th (PSet i todo))
       | Some (PSet i todo), _ =>                                 (* l.done.Set(i, true); unlock *)
           let s' := mkstate (set_nth (s_done s) i true) (s_file s) (s_calls s) (set_nth (s_mutex s) i false)
-                            (s_saved s) (s_threads s) (s_log s) (s_crashed s) (s_stale s) (s_fetched s) in
+                            (s_saved s) (s_threads s) (s_log s) (s_crashed s) (s_fetched s) in
           Some (set_pc s' k th (PNeed todo))
       end
     end.
@@ -198,11 +204,9 @@ Section Loader.
                  | CResize k => resize (s_file s) k
                  end in
     let usable := match s_saved s with Some b => m_state m && state_matches b | None => false end in
-    let lost := match m_cache m with CKeep => false | _ => true end in
-    let stale := match s_saved s with Some _ => s_stale s || lost | None => false end in
     if (List.length cache =? L)%nat && usable then
       mkstate (match s_saved s with Some b => b | None => [] end) cache (s_calls s) (repeat false n) (s_saved s)
-              [] (s_log s) false stale (s_fetched s)
+              [] (s_log s) false (s_fetched s)
     else
       let preload := match s_saved s with
                      | Some b => if m_preload m && m_state m && state_matches b then
@@ -210,8 +214,10 @@ Section Loader.
                                        (filter (fun i => nth i b false) (seq 0 n))
                                  else []
                      | None => [] end in
-      mkstate (repeat false n) (resize cache L) (s_calls s) (repeat false n) (s_saved s)
-              preload (s_log s) false stale (s_fetched s).
+      (* Truncate to full size, start the preload workers, then sf.WriteState(): the state that was not used is
+         replaced by the (blank) state of this incarnation *)
+      mkstate (repeat false n) (resize cache L) (s_calls s) (repeat false n) (Some (repeat false n))
+              preload (s_log s) false (s_fetched s).
 
   Definition valid_request (rq : request) : bool :=
     match rq with RqLoad i => (i <? n)%nat | _ => true end.
@@ -227,28 +233,17 @@ Section Loader.
           | Some th =>
               Some (mkstate (s_done s) (s_file s) (s_calls s) (s_mutex s) (s_saved s)
                             (upd_thread s k (mkthread (queue th ++ [rq]) (pc th)))
-                            (s_log s) (s_crashed s) (s_stale s) (s_fetched s))
+                            (s_log s) (s_crashed s) (s_fetched s))
           | None =>
               Some (mkstate (s_done s) (s_file s) (s_calls s) (s_mutex s) (s_saved s)
                             (s_threads s ++ [mkthread [rq] None])
-                            (s_log s) (s_crashed s) (s_stale s) (s_fetched s))
+                            (s_log s) (s_crashed s) (s_fetched s))
           end
     end.
 
-  (* The property's premise on restarts: the state file is used only together with the cache file it was saved
-     for.  [stale_load] recognises the restarts that violate it (the state file outlived a lost cache file and was
-     not rewritten since). *)
-  Definition stale_load (s : sstate) (l : label) : bool :=
-    match l with
-    | LRestart m => s_stale s && m_state m
-    | _ => false
-    end.
-  Definition step_paired (s : sstate) (l : label) : option sstate :=
-    if stale_load s l then None else step s l.
-
-  (* first start: no cache file, no state file *)
+  (* first start: no cache file, no state file; NewSparseFile creates both *)
   Definition init : sstate :=
-    mkstate (repeat false n) (repeat 0%N L) 0%nat (repeat false n) None [] [] false false [].
+    mkstate (repeat false n) (repeat 0%N L) 0%nat (repeat false n) (Some (repeat false n)) [] [] false [].
 
   (* run goroutine k until its current request (and everything queued) is finished; fuel-bounded *)
   Fixpoint drain (fuel : nat) (s : sstate) (k : nat) : sstate :=
@@ -281,18 +276,12 @@ Record loader_inv (idx : index) (nullid : id) (blob : bytes) (s : sstate) : Prop
   (* a set done bit (and every null chunk, which is never loaded) means the range is populated with the chunk *)
   li_done : forall i r, nth_error idx i = Some r ->
               nth i (s_done s) false = true \/ r_id r = nullid -> range_good idx blob (s_file s) i;
-  (* the state file never claims more than the cache file holds, as long as the two belong together *)
-  li_saved : s_stale s = false -> forall b, s_saved s = Some b ->
+  (* the state file never claims more than the cache file holds *)
+  li_saved : forall b, s_saved s = Some b ->
               forall i, nth i b false = true -> range_good idx blob (s_file s) i;
   (* every ReadAt that completed, in this or an earlier incarnation, returned the blob's bytes *)
   li_log : Forall (read_result_ok blob) (s_log s);
 }.
-
-(* schedules in which every ReadAt has a non-empty buffer *)
-Definition label_nonzero (l : label) : bool :=
-  match l with LSubmit _ (RqRead _ len) => (1 <=? len)%nat | _ => true end.
-Definition step_nonzero (idx : index) (nullid : id) (store : store_t) (s : sstate) (l : label) : option sstate :=
-  if label_nonzero l then step idx nullid store s l else None.
 
 (* chunk i has been fetched successfully (call number c of the store) and written, in this or an earlier incarnation *)
 Definition fetched_ok (idx : index) (store : store_t) (fl : list (nat * nat)) (i : nat) : Prop :=
